@@ -166,6 +166,13 @@ pub trait Property: Sync {
     fn sample(&self, case: &Self::Case) -> Value {
         serde_json::to_value(case).unwrap_or(Value::Null)
     }
+    /// Which components ran real code and which ran a stub (reported in the evidence).
+    fn components(&self) -> Value {
+        json!({
+            "real": ["/repo/src (all modules, built from the working tree with feature verif)", "rayon 1.10.0 parallel-iterator layer"],
+            "stub": ["rayon-core (simulated scheduler, /verif/sim/rayon-core)", "HashMap hasher (seeded)", "SystemTime in Tensor::random (simulated clock)"]
+        })
+    }
     /// Extra deterministic checks run once per invocation (e.g. fixed regression cases).
     fn fixed_cases(&self) -> Vec<Self::Case> {
         Vec::new()
@@ -570,10 +577,7 @@ pub fn drive<P: Property>(p: &P, tier: Tier, out: &mut dyn std::io::Write) -> i3
             "degenerate": degenerate,
             "known_findings_hit": known_hits,
             "required_probes_at_zero": probe_failures,
-            "components": {
-                "real": ["/repo/src (all modules, built from the working tree with feature verif)", "rayon 1.10.0 parallel-iterator layer"],
-                "stub": ["rayon-core (simulated scheduler, /verif/sim/rayon-core)", "HashMap hasher (seeded)", "SystemTime in Tensor::random (simulated clock)"]
-            },
+            "components": p.components(),
             "engine": "E1 poolsim (recursive single-thread simulation of rayon-core; switches only at join boundaries)",
             "workers": worker_count(),
             "event_log_digest": format!("{:016x}", batch.event_digest),
